@@ -138,7 +138,8 @@ def _r1(model, res, m, c, methods, store):
     for lp in loops:
         tnames = set(n.id for n in ast.walk(lp.target) if isinstance(n, ast.Name))
         for call in calls_in(lp):
-            if any(isinstance(n, ast.Name) and n.id in tnames for n in ast.walk(call.func)):
+            # the callee spelled directly or through a local bound once (fn = listener.fn; fn(*args, **listener.ctx))
+            if any(isinstance(n, ast.Name) and n.id in tnames for n in ast.walk(_via_local(emit, call.func, tnames))):
                 deliver.append((lp, call, tnames))
     res.floor('delivery loops in emit', len(deliver), 1)
     ltype, fields = _listener_fields(model, m)
@@ -180,12 +181,18 @@ def _r1(model, res, m, c, methods, store):
                           'listener is not called with exactly the emitted arguments (*%s)' % va,
                           case=src(call), func=c.name + '.emit')
         kw = [k for k in call.keywords if k.arg is None]
-        ok_ctx = len(kw) == 1 and len(call.keywords) == 1 and _derived_field(kw[0].value, tnames, 'ctx', fields, 1, lp.target)
-        ok_fn = _derived_field(call.func, tnames, 'fn', fields, 0, lp.target)
+        ok_ctx = len(kw) == 1 and len(call.keywords) == 1 and _derived_field(_via_local(emit, kw[0].value, tnames), tnames, 'ctx', fields, 1, lp.target)
+        ok_fn = _derived_field(_via_local(emit, call.func, tnames), tnames, 'fn', fields, 0, lp.target)
         res.ob('R1', site, 'listener function and bound context taken from the same listener record', ok_ctx and ok_fn, src(call))
         if not (ok_ctx and ok_fn):
             res.violation('R1', '%s:%s.emit:ctx-forwarding' % (m.name, c.name), m.where(call),
                           'listener is not called as record.fn(*args, **record.ctx)', case=src(call), func=c.name + '.emit')
+
+
+def _via_local(func, node, tnames):
+    if isinstance(node, ast.Name) and node.id not in tnames:
+        return sa.resolve_local(func, node)
+    return node
 
 
 def _derived_field(node, tnames, field, fields, idx, target=None):
